@@ -184,23 +184,22 @@ def check(prop, tier="quick", seed=0, jobs=None, replay=None, repo=None, quiet=F
         results, problems, wall_workers = run_workers(prop, specs, jobs, timeout, workdir, repo)
         counters, evals, ndistinct, violations, known, samples, exhaustive, cpu = merge(results)
 
-        # a hang must reproduce alone before it is called a violation
+        # a hang must reproduce when the shard runs alone before it is called a violation
         if "hang" in violations:
             confirmed = 0
-            for w in violations["hang"]["witnesses"][:2]:
-                spec = {"tier": tier, "seed": seed, "shard": 0, "nshards": 1, "assertions": w.get("assertions", 0),
-                        "replay": w, "known": sorted(known_active), "case_timeout": 120}
-                if w.get("module"):
-                    spec["module"] = w["module"]
-                r2, p2, _ = run_workers(prop, [spec], 1, 400, workdir + "-hang", repo)
+            hung = [i for i, r in enumerate(results) if r is not None and "hang" in r["violations"]][:2]
+            for i in hung:
+                spec = dict(specs[i])
+                spec["case_timeout"] = 150
+                r2, p2, _ = run_workers(prop, [spec], 1, timeout, workdir + "-hang", repo)
                 if r2[0] is not None and "hang" in r2[0]["violations"]:
                     confirmed += 1
-                elif r2[0] is None:
-                    confirmed += 1  # the replay worker itself had to be killed
+                elif r2[0] is None and any("watchdog" in x for x in p2):
+                    confirmed += 1  # the re-run had to be killed by the outer watchdog
             shutil.rmtree(workdir + "-hang", ignore_errors=True)
             if not confirmed:
                 del violations["hang"]
-                problems.append("per-case watchdog fired but the case finished when replayed alone")
+                problems.append("progress watchdog fired but the shard finished when re-run alone")
 
         gates = {g: counters.get(g, 0) for g in getattr(mod, "GATES", [])}
         missed = [g for g, v in gates.items() if v <= 0]
